@@ -287,6 +287,7 @@ func c10mutations(rng *rand.Rand, base []byte, pool *Pool) []c10str {
 var (
 	c10ctx   *mon.Ctx
 	c10other []byte
+	c10kept  = Retainer{Cap: 40}
 )
 
 func c10nested(rng *rand.Rand) {
@@ -359,6 +360,7 @@ func runC10(c *mon.Ctx) {
 			}
 		})
 	}
+	c.Case("retained-results", func() { c10kept.Flush(c) })
 }
 
 // c10honest creates a real proof with the library's prover.
@@ -399,8 +401,10 @@ func c10readMulti(c *mon.Ctx, or *c10oracle, s c10str, rk readerKind, rng *rand.
 	rd, _ := rk.mk(s.b, rng)
 	want := or.multiOK(s.b)
 	var mp multiproof.MultiProof
+	freshReceiver := true
 	if rng.Intn(2) == 0 {
 		mp = c10usedMulti // the receiver already holds the previously accepted proof (same backing arrays)
+		freshReceiver = false
 	}
 	var err error
 	if p, st := mon.Try(func() { err = mp.Read(rd) }); p != nil {
@@ -431,7 +435,20 @@ func c10readMulti(c *mon.Ctx, or *c10oracle, s c10str, rk readerKind, rng *rand.
 		}
 	default:
 		c.Count("accept_expected_and_observed", 1)
-		c10usedMulti = mp
+		if freshReceiver && rng.Intn(2) == 0 {
+			// the caller keeps this proof object (it is not used as a receiver again): many reads and writes later it must
+			// still serialise to the bytes it was read from
+			kept, orig := mp, append([]byte(nil), snap...)
+			c10kept.Keep(c, "MultiProof.Read", func() string {
+				var w bytes.Buffer
+				if err := kept.Write(&w); err != nil || !bytes.Equal(w.Bytes(), orig) {
+					return fmt.Sprintf("a proof object read earlier no longer serialises to the bytes it was read from (err=%v)", err)
+				}
+				return ""
+			})
+		} else {
+			c10usedMulti = mp
+		}
 		// Write reproduces the input; Read(Write(p)) == p
 		var w bytes.Buffer
 		if err := mp.Write(&w); err != nil || !bytes.Equal(w.Bytes(), snap) {
